@@ -338,6 +338,8 @@ class Emit:
             elif self.selfopt_stmt(x) is not None:
                 for v in self.selfopt_stmt(x)[0]:
                     add(v)
+            elif x[0] == "mcall" and x[2] in ("unwrap", "expect") and x[1][0] == "mcall" and x[1][2] in self.cfg.get("sendlog", {}):
+                add(self.cfg["sendlog"][x[1][2]][0])
             elif self.foreach_target(x) is not None:
                 add(self.foreach_target(x)[0])
             elif x[0] == "mcall" and x[2] in self.cfg.get("selfmut", {}) and x[1] == ("path", ["self"]):
@@ -545,6 +547,9 @@ class Emit:
             argi, tmpl = self.cfg["selfmut"][x[2]]
             v = argi if isinstance(argi, str) else self.lhs_name(x[3][argi])
             return "let %s := (%s);\n    %s" % (v, tmpl.format(*[self.atom(a) for a in x[3]]), tailstr())
+        if x[0] == "mcall" and x[2] in ("unwrap", "expect") and x[1][0] == "mcall" and x[1][2] in self.cfg.get("sendlog", {}):
+            log, tmpl = self.cfg["sendlog"][x[1][2]]           # `chan.send(msg).unwrap();`: the message joins the log of what was sent, with its channel
+            return "let %s := (%s ++ [%s]);\n    %s" % (log, log, tmpl.format(self.atom(x[1][1]), *[self.atom(a) for a in x[1][3]]), tailstr())
         if self.selfopt_stmt(x) is not None:
             places, call = self.selfopt_stmt(x)
             return "(match %s with\n    | some %s => (%s)\n    | none => none)" % (call, self.tup(list(places)), tailstr())
@@ -1497,6 +1502,16 @@ BATCHREQ = [
          method={"lock": "{0}", "unwrap": "{0}", "len": "List.length {0}"}, mutmethods={"insert": "mapSet {0} {1} {2}"}),
 ]
 
+# ---- the fan-out of a distance query: one `Distances` command per candidate and executor (C10)
+FANOUT = [
+    dict(group="FanOut", name="store_foreign_fanout", file="track/store.rs", impl=None, fn="foreign_track_distances", imperative=True, retwrap="(sent, {0})",
+         sig="{T : Type} (execs : List (Nat × Unit)) (sent : List (Nat × T × Nat × Bool)) (tracks : List T) (feature_class : Nat) (only_baked : Bool) : List (Nat × T × Nat × Bool) × Nat × Nat",
+         fieldpath={"self.executors": "execs"}, method={"len": "List.length {0}", "clone": "{0}"},
+         call={"crossbeam::channel::unbounded": "((), ())", "Arc::new": "{0}", "Commands::Distances": "({0}, {1}, {2})",
+               "TrackDistanceOk::new": "{0}", "TrackDistanceErr::new": "{0}"},
+         sendlog={"send": ("sent", "({0}, {1})")}),
+]
+
 # ---- the per-detection loop of `Sort::predict_with_scene`: apply the winners, one record per detection (C01)
 def pick_apply(stmts):
     """from `let mut res = Vec::default();` to the loop that fills it (the tail `res` is the value)"""
@@ -1669,7 +1684,7 @@ LOGIC = [
 def gen(repo, cfgs, header, footer):
     out, unread = [header], []
     for c in cfgs:
-        if c in LOGIC or c in TRACK or c in VOTING or c in TRACK_DIST or c in STORE or c in RECORDS or c in AUTOWASTE or c in VISVOTE or c in STORE_MAP or c in STORE_ADD or c in SORTVOTE or c in IDLE or c in TRACK_BUILD or c in APPLY or c in GC or c in VOTEPARAMS or c in BATCHREQ:
+        if c in LOGIC or c in TRACK or c in VOTING or c in TRACK_DIST or c in STORE or c in RECORDS or c in AUTOWASTE or c in VISVOTE or c in STORE_MAP or c in STORE_ADD or c in SORTVOTE or c in IDLE or c in TRACK_BUILD or c in APPLY or c in GC or c in VOTEPARAMS or c in BATCHREQ or c in FANOUT:
             c = dict(c, scalar=c.get("scalar", "Rat"))
         path = os.path.join(repo, "src", c["file"])
         try:
@@ -1989,6 +2004,7 @@ def main():
     jobs.append(("LIdle.lean", IDLE, "import SimVerif.Gen.LEpoch\nimport SimVerif.Gen.LEpochDb\n" + HEADER_L, "SimVerif.Gen.L"))
     jobs.append(("LVoteParams.lean", VOTEPARAMS, HEADER_L + PRELUDE_VP, "SimVerif.Gen.L"))
     jobs.append(("LBatchReq.lean", BATCHREQ, "import SimVerif.Gen.LBase\n" + HEADER_L, "SimVerif.Gen.L"))
+    jobs.append(("LFanOut.lean", FANOUT, HEADER_L, "SimVerif.Gen.L"))
     jobs.append(("LGc.lean", GC, "import SimVerif.Gen.LEpoch\n" + HEADER_L, "SimVerif.Gen.L"))
     jobs.append(("LApply.lean", APPLY, "import SimVerif.Gen.LBase\n" + HEADER_L, "SimVerif.Gen.L"))
     jobs.append(("LTrackBuild.lean", TRACK_BUILD, "import SimVerif.Model.Track\n" + HEADER_L + "open SimVerif\n", "SimVerif.Gen.L"))
